@@ -8,8 +8,11 @@ CONSTANTS
  ResetInTransition = TRUE
  ResetBeforeWindow = FALSE
  StrobeInTransition = TRUE
+ PartialOutcomes = TRUE
+ ShallowChangeTest = FALSE
+ CacheFromPoller = FALSE
  FixLevel = 2
 SPECIFICATION Spec
-INVARIANTS NoStaleClock NoticedInv
+INVARIANTS NoStaleClock NoticedInv NoOverwrite
 PROPERTY Converges
 CHECK_DEADLOCK FALSE
